@@ -1,6 +1,8 @@
 SPECIFICATION Spec
 CONSTANTS
   MaxLen = 3
-  Guard = FALSE
+  GuardMode = "ascode"
+  NormAfterGuard <- NoApis
+  Classes <- CoreClasses
 CONSTRAINT Emit
 CHECK_DEADLOCK FALSE
